@@ -1,17 +1,45 @@
 #!/bin/sh
-# usage: tools/seeded_all.sh [out-file]  -- runs every seeded change against its property's check in a scratch worktree
-# of /repo (HEAD) under /tmp, so /repo itself is not touched; removes the worktree afterwards. One block per change.
+# usage: tools/seeded_all.sh [out-file] [workers]
+# Runs every seeded change against its property's check. /repo and the live /verif are not touched: the checks run
+# from a snapshot of /verif (contracts, prelude, replay templates, known findings, the built tool) against scratch
+# worktrees of /repo HEAD under /tmp (one per worker), all removed afterwards. One block per change in the out file.
 export GOFLAGS=-mod=mod GOPROXY=off GOSUMDB=off GOTOOLCHAIN=local
 out=${1:-/tmp/seeded_all.log}
-wt=/tmp/seedrun.$$
-git -C /repo worktree add -q --detach $wt HEAD || exit 2
-: > $out
-for d in /verif/seeded/*/; do
-  id=$(basename $d); p=$(echo $id | cut -d- -f1)
-  echo "=== $id" >> $out
-  if ! git -C $wt apply $d/patch.diff 2>/dev/null; then echo "patch does not apply" >> $out; continue; fi
-  (cd /verif && bin/govc check -repo $wt -no-evidence -tier quick $p 2>&1 | grep "VIOLATION\|obligation failed\|quick:\|BROKEN\|KNOWN" | cut -c1-260 | head -8) >> $out
-  git -C $wt checkout -q -- . ; git -C $wt clean -fdq
+nw=${2:-4}
+snap=/tmp/vsnap.$$
+mkdir -p $snap
+cp -r /verif/bin /verif/contracts /verif/prelude /verif/replay_tmpl /verif/known_findings.json /verif/properties.jsonl $snap/
+ids=$(ls /verif/seeded)
+k=0
+pids=""
+while [ $k -lt $nw ]; do
+  wt=/tmp/seedrun.$$.$k
+  git -C /repo worktree add -q --detach $wt HEAD || exit 2
+  (
+    i=0
+    for id in $ids; do
+      if [ $((i % nw)) -eq $k ]; then
+        p=$(echo $id | cut -d- -f1)
+        part=$snap/part.$id
+        echo "=== $id" > $part
+        if git -C $wt apply /verif/seeded/$id/patch.diff 2>/dev/null; then
+          (cd $snap && bin/govc check -repo $wt -verif $snap -no-evidence -tier quick $p 2>&1 | grep "VIOLATION\|obligation failed\|quick:\|BROKEN\|KNOWN" | cut -c1-260 | head -8) >> $part
+          git -C $wt checkout -q -- . ; git -C $wt clean -fdq
+        else
+          echo "patch does not apply" >> $part
+        fi
+      fi
+      i=$((i + 1))
+    done
+  ) &
+  pids="$pids $!"
+  k=$((k + 1))
 done
-git -C /repo worktree remove --force $wt; git -C /repo worktree prune
+wait $pids
+: > $out
+for id in $ids; do cat $snap/part.$id >> $out 2>/dev/null; done
+k=0
+while [ $k -lt $nw ]; do git -C /repo worktree remove --force /tmp/seedrun.$$.$k; k=$((k + 1)); done
+git -C /repo worktree prune
+rm -rf $snap
 echo done >> $out
